@@ -4,6 +4,7 @@
 # checks at it (VERIF_REPO), prints one line per check, and removes the worktree and its build
 # output. Evidence and replays of these runs go to a scratch directory, never to /verif/evidence.
 set -u
+VD=$(cd "$(dirname "$0")/.." && pwd); export VERIF_DIR=$VD
 name=$1; change=$2; shift 2
 S=${VERIF_SCRATCH:-/var/tmp/verif-scratch}
 wt=$S/wt-$name; out=$S/out-$name; bld=$S/build-$name
@@ -19,7 +20,7 @@ if [ -n "${MUTANT_TESTS:-}" ]; then
   (cd $wt && go build ./... && go test -vet=off -count=1 ./... 2>&1 | grep -v "^ok\|no test files" | head -5)
 fi
 for p in "$@"; do
-  VERIF_REPO=$wt VERIF_OUT=$out VERIF_BUILD=$bld /verif/check $p --tier ${MUTANT_TIER:-quick} ${MUTANT_ARGS:-} > $S/log-$name-$p.txt 2>&1
+  VERIF_REPO=$wt VERIF_OUT=$out VERIF_BUILD=$bld $VD/check $p --tier ${MUTANT_TIER:-quick} ${MUTANT_ARGS:-} > $S/log-$name-$p.txt 2>&1
   rc=$?
   sigs=$(grep "signature:" $S/log-$name-$p.txt | sed 's/^ *signature: //' | cut -d' ' -f1 | head -4 | tr '\n' ' ')
   echo "$name $p exit=$rc $(grep -c '^VIOLATION' $S/log-$name-$p.txt) violations; $sigs"
